@@ -126,20 +126,17 @@ fn mk_always<S: anstream::stream::RawStream>(s: S) -> AutoStream<S> {
 }
 
 macro_rules! never_case {
-    ($name:ident, $ctor:path, $cheap_only:expr, $two:expr) => {
-        /// Choice Never: same return values and same bytes as a strip stream.  `write` /
-        /// `write_vectored` (the short-write machinery, by far the most expensive code for the
-        /// solver) are exercised as single operations; pairs are drawn from the other kinds.
+    ($name:ident, $ctor:path, $kind:expr) => {
+        /// Choice Never: one operation of a concrete kind with a symbolic payload gives the same
+        /// return value and the same bytes as a strip stream fed the same operation.
         #[kani::proof]
         #[kani::unwind(10)]
         fn $name() {
-            let op1 = any_op();
-            let op2 = any_op();
-            if $cheap_only {
-                kani::assume(op1.kind == 1 || op1.kind == 3 || op1.kind == 4);
-                kani::assume(op2.kind == 1 || op2.kind == 3 || op2.kind == 4);
-            } else {
-                kani::assume(op1.kind == 0 || op1.kind == 2);
+            let mut op1 = any_op();
+            op1.kind = $kind;
+            if $kind == 0 || $kind == 2 {
+                // write / write_vectored: the short-write machinery is the most expensive code
+                // in the repository for the solver; one byte is what fits the quick budget
                 kani::assume(op1.la <= 1);
             }
             let mut got: Sink<8> = Sink::new();
@@ -152,30 +149,30 @@ macro_rules! never_case {
                 let mut strip = StripStream::new(ww);
                 let r1 = apply(&mut auto, &op1);
                 let s1 = apply(&mut strip, &op1);
-                assert!(r1 == s1, "first operation: same result as the strip stream");
-                if $two {
-                    let r2 = apply(&mut auto, &op2);
-                    let s2 = apply(&mut strip, &op2);
-                    assert!(r2 == s2, "second operation: same result as the strip stream");
-                }
+                assert!(r1 == s1, "same result as the strip stream");
                 let _back: &mut (dyn std::io::Write + 'static) = auto.into_inner();
             }
             assert!(sinks_equal(&got, &want), "inner writer received exactly what the strip stream delivers");
-            kani::cover!(want.len >= 1);
+            kani::cover!(want.len >= 1 || $kind == 4);
             kani::cover!(want.len == 0);
         }
     };
 }
 
-never_case!(never_one_cheap_op, AutoStream::never, true, false);
-never_case!(new_never_one_cheap_op, mk_never, true, false);
+never_case!(never_write, AutoStream::never, 0);
+never_case!(never_write_all, AutoStream::never, 1);
+never_case!(never_write_vectored, AutoStream::never, 2);
+never_case!(never_write_fmt, AutoStream::never, 3);
+never_case!(never_flush, AutoStream::never, 4);
+never_case!(new_never_write_all, mk_never, 1);
+never_case!(new_never_write_fmt, mk_never, 3);
 
 /// The strip state is carried from one call to the next exactly as in a strip stream: a
-/// first call that ends inside an escape sequence, then any 2 bytes.
+/// first call that ends inside an escape sequence, then any byte.
 #[kani::proof]
 #[kani::unwind(10)]
 fn never_state_carried_across_calls() {
-    let tail: [u8; 2] = kani::any();
+    let tail: [u8; 1] = kani::any();
     let mut got: Sink<8> = Sink::new();
     let mut want: Sink<8> = Sink::new();
     {
@@ -187,11 +184,9 @@ fn never_state_carried_across_calls() {
         assert!(auto.write_all(&tail).is_ok() && strip.write_all(&tail).is_ok());
     }
     assert!(sinks_equal(&got, &want), "inner writer received exactly what the strip stream delivers");
-    kani::cover!(want.len == 1);
-    kani::cover!(want.len == 2);
+    assert!(want.len == 1, "the text before the sequence, nothing of the sequence");
+    kani::cover!(tail[0] == b'm');
 }
-never_case!(never_one_write_op, AutoStream::never, false, false);
-never_case!(new_never_one_write_op, mk_never, false, false);
 
 macro_rules! passthrough_case {
     ($name:ident, $ctor:path) => {
@@ -232,7 +227,7 @@ passthrough_case!(new_always_two_ops, mk_always);
 #[kani::proof]
 #[kani::unwind(10)]
 fn vec_into_inner() {
-    let a: [u8; 2] = kani::any();
+    let a: [u8; 1] = kani::any();
     let never: bool = kani::any();
     let mut s = if never {
         AutoStream::never(Vec::<u8>::new())
@@ -242,27 +237,13 @@ fn vec_into_inner() {
     assert!(s.write_all(&a).is_ok());
     let v = s.into_inner();
     if never {
-        let (keep, ctl) = crate::strip_common::spec(&a, 2);
-        #[cfg(feature = "kf_c01_ctl_in_broken_utf8")]
-        kani::assume(!ctl);
-        let mut want: Sink<2> = Sink::new();
-        let mut i = 0;
-        while i < 2 {
-            if keep[i] {
-                want.push_bytes(&a[i..i + 1]);
-            }
-            i += 1;
-        }
-        assert!(v.len() == want.len, "never: the visible text");
-        let mut i = 0;
-        while i < 2 {
-            if i < want.len {
-                assert!(v[i] == want.buf[i]);
-            }
-            i += 1;
+        let (keep, _ctl) = crate::strip_common::spec(&a, 1);
+        assert!(v.len() == keep[0] as usize, "never: the visible text");
+        if keep[0] {
+            assert!(v[0] == a[0]);
         }
     } else {
-        assert!(v.len() == 2 && v[0] == a[0] && v[1] == a[1], "always-ansi: unchanged");
+        assert!(v.len() == 1 && v[0] == a[0], "always-ansi: unchanged");
     }
     kani::cover!(never && v.len() == 1);
     kani::cover!(!never);
